@@ -274,7 +274,7 @@ pub fn run_reserve(args: &[u64], out: &mut Out) {
                             vec![1, h.to_bits().into()]
                         }
                         1 => {
-                            let v: Vec<Entity> = wstatic.reserve_entities(arg as u32).collect();
+                            let v: Vec<Entity> = crate::comps::drain_reserved(wstatic.reserve_entities(arg as u32), arg as usize);
                             if let Some(h) = v.last() {
                                 last = *h;
                             }
